@@ -6,9 +6,11 @@ import "bytes"
 
 // C04 — record protection of the datagram stack: the 8 bytes fed to the MAC / additional data and to the GCM
 // nonce are epoch(2) || sequence(6) as written in the 13-byte header, together with type, version and plaintext
-// length; the sequence number advances by one per record within an epoch.
+// length; the sequence number advances by one per record within an epoch. The last obligation is C15's as well:
+// a sender whose explicit sequence number repeats has its second datagram dropped by the peer's replay window, so
+// "one WriteTo, one datagram, delivered" needs the counter to advance from ANY 48-bit value (carries included).
 //
-//verif:harness props=C04 paths=2000 reach=done
+//verif:harness props=C04,C15 paths=2000 reach=done
 func VerifHarness_C04_record_layout() {
 	kind := verifSplitInt("cipher", vcGCM, vcCBC)
 	iv := verifNondetBytes("iv", 4)
@@ -43,6 +45,8 @@ func VerifHarness_C04_record_layout() {
 		}
 	}
 	verifAssert("C04.record.seqAdvancesByOne", uint64(w.writeSeq) == s0+uint64(k) && w.writeEpoch == ep)
+	verifAssert("C15.record.everyDatagramHasAFreshSequenceNumber", uint64(w.writeSeq) == s0+uint64(k) && w.writeEpoch == ep &&
+		len(wt.sent) == k && !bytes.Equal(wt.sent[0][3:11], wt.sent[1][3:11]))
 	verifReach("done")
 }
 
